@@ -175,6 +175,14 @@ async fn process_message<const S: usize>(
     Some(incoming_msg)
 }
 
+#[cfg(beetswap_verif)]
+pub(crate) async fn verif_process_message<const S: usize>(
+    multihasher: Arc<MultihasherTable<S>>,
+    msg: Message,
+) -> Option<IncomingMessage<S>> {
+    process_message(multihasher, msg).await
+}
+
 #[cfg(test)]
 mod tests {
     use super::*;
